@@ -158,6 +158,8 @@ DEFAULT_PROFILE = {
     "p_fault_free": 0.4,
     "fault_kinds": ["crash", "crash", "extstop"],
     "p_latency": 0.6,
+    "p_shuffle_keys": 0.3,
+    "p_io_latency": 0.5,
     "p_async_stop": 0.15,
     "p_nodelay_false": 0.12,
     "p_sync_sched": 0.15,
@@ -484,6 +486,13 @@ def gen_scenario(root, profile=None):
     if r.chance(p["p_callback_raise"]):
         scen["callback_raise"] = {"hook": r.choice(["on_trial_result", "on_loop_end", "on_start_trial", "sleep"]),
                                   "n": r.randint(1, 25), "exc": r.choice(["RuntimeError", "KeyboardInterrupt"])}
+    # ---- extensions drawn from their own stream (scenarios of earlier versions keep all their other fields) ----
+    r2 = HRng(root, "scenario-ext1")
+    if r2.chance(p["p_shuffle_keys"]) and p["world"] != "sim":
+        script["shuffle_keys"] = True  # the script lists the entries of a report in varying order
+    if scen.get("latency") and p["world"] == "local" and r2.chance(p["p_io_latency"]):
+        # F12 slow reads: time passes between the back-end's read of the process status and of the output stream
+        scen["latency"]["p_io"] = r2.choice([0.05, 0.2, 0.5])
     return scen
 
 
